@@ -33,7 +33,7 @@ def run(ctx: core.Ctx) -> int:
     mc = ctx.mc("Precedence", ctx.cfg_with("MC_C04.cfg", "t", Depth=2 if q else 3))
     mc_viol = [{"clause": f"model:{v}", "kf": "", "detail": mc["out"][-2500:]} for v in mc["violated"]]
     if not q:
-        mc2 = ctx.mc("Precedence", ctx.cfg_with("MC_C04.cfg", "t2", Depth=2, MaxTables=2), timeout=7200)
+        mc2 = ctx.mc("Precedence", ctx.cfg_with("MC_C04.cfg", "t2", Depth=1, MaxTables=2), timeout=7200)   # (Depth 2 with 2 tables per file: 3e7 states, hours)
         mc_viol += [{"clause": f"model:{v}", "kf": "", "detail": mc2["out"][-2500:]} for v in mc2["violated"]]
     # 2. cases (TLC prints the project of every case)
     gens = ctx.gen_json("Precedence", ctx.cfg_with("Gen_C04.cfg", "t", Depth=2 if q else 3))
